@@ -46,9 +46,10 @@ impl State {
 
         if let (Token::Comment(_), false) = (&token, self.token_this_line) {
             // a line with only a comment is like a blank line, it says nothing about indentation
-            let lex = Lex::new(self.pos, token);
-            self.pos = lex.pos.end;
-            return vec![lex];
+            let mut res: Vec<Lex> = self.newlines.drain(..).collect();
+            res.push(Lex::new(self.pos, token));
+            self.pos = res.last().map_or(self.pos, |lex| lex.pos.end);
+            return res;
         }
 
         self.token_this_line = true;
